@@ -477,4 +477,179 @@ theorem bottomUp_sound (P : Program) (hpos : ∀ c ∈ P, c.body.positive = true
         · exact hF0 f h1
         · exact hnew f h1
 
+
+/-! ## Completeness for ground (propositional) positive programs -/
+
+namespace G
+theorem rename_ground (k : Nat) (g : Goal) (h : g.ground = true) : g.rename k = g := by
+  induction g with
+  | tt => rfl
+  | ff => rfl
+  | call t => simp only [Goal.ground] at h; simp [Goal.rename, SLDLemmas.rename_ground k t h]
+  | unif a b =>
+    simp only [Goal.ground, Bool.and_eq_true] at h
+    simp [Goal.rename, SLDLemmas.rename_ground k a h.1, SLDLemmas.rename_ground k b h.2]
+  | conj a b iha ihb =>
+    simp only [Goal.ground, Bool.and_eq_true] at h
+    simp [Goal.rename, iha h.1, ihb h.2]
+  | disj a b iha ihb =>
+    simp only [Goal.ground, Bool.and_eq_true] at h
+    simp [Goal.rename, iha h.1, ihb h.2]
+  | neg g ih => simp only [Goal.ground] at h; simp [Goal.rename, ih h]
+  | findall t g r ih =>
+    simp only [Goal.ground, Bool.and_eq_true] at h
+    simp [Goal.rename, SLDLemmas.rename_ground k t h.1.1, SLDLemmas.rename_ground k r h.2, ih h.1.2]
+end G
+
+/-- Unifying a ground term with itself never fails (it may only run out of fuel). -/
+theorem unifyF_refl_ground : ∀ (n : Nat) (a : Tm), a.ground = true →
+    unifyF n a a = none ∨ unifyF n a a = some (some []) := by
+  intro n
+  induction n with
+  | zero => intro a _; left; simp [unifyF]
+  | succ n ih =>
+    intro a ha
+    cases a with
+    | var x => simp [Tm.ground] at ha
+    | sym s => right; simp [unifyF]
+    | app a1 a2 =>
+      simp only [Tm.ground, Bool.and_eq_true] at ha
+      unfold unifyF
+      simp only
+      rcases ih a1 ha.1 with h1 | h1
+      · left; simp [h1]
+      · rw [h1]
+        simp only [subst_nil]
+        rcases ih a2 ha.2 with h2 | h2
+        · left; simp [h2]
+        · right; simp [h2, compose]
+
+theorem bindAll_ne_nil {α β : Type} (f : α → Option (List β)) (l : List α) (r : List β)
+    (h : bindAll f l = some r) (a : α) (ha : a ∈ l) (ys : List β) (hy : f a = some ys) (hne : ys ≠ []) : r ≠ [] := by
+  obtain ⟨y, hy'⟩ := List.exists_mem_of_ne_nil ys hne
+  have := (mem_bindAll f l r h y).2 ⟨a, ha, ys, hy, hy'⟩
+  intro e; rw [e] at this; simp at this
+
+theorem bindAll_some_of_mem {α β : Type} (f : α → Option (List β)) : ∀ (l : List α) (r : List β),
+    bindAll f l = some r → ∀ a ∈ l, ∃ ys, f a = some ys := by
+  intro l
+  induction l with
+  | nil => intro r _ a ha; simp at ha
+  | cons x xs ih =>
+    intro r h a ha
+    simp only [bindAll] at h
+    cases hx : f x with
+    | none => simp [hx] at h
+    | some ys =>
+      simp only [hx] at h
+      cases hr : bindAll f xs with
+      | none => simp [hr] at h
+      | some zs =>
+        rcases List.mem_cons.1 ha with rfl | ha'
+        · exact ⟨ys, hx⟩
+        · exact ih zs hr a ha'
+
+/-- For a ground positive program, a derivable ground positive goal never fails finitely: whenever the search
+    terminates (`some as`), it has an answer. -/
+theorem ground_complete (P : Program)
+    (hP : ∀ c ∈ P, c.head.ground = true ∧ c.body.ground = true ∧ c.body.positive = true) :
+    ∀ g, Derivable P g → g.ground = true → g.positive = true →
+      ∀ (n : Nat) (s : St) (as : List St), solveSt P n g s = some as → as ≠ [] := by
+  intro g hd
+  induction hd with
+  | tt =>
+    intro _ _ n s as h
+    cases n with
+    | zero => simp [solveSt] at h
+    | succ n => simp [solveSt] at h; subst h; simp
+  | unif a =>
+    intro hg _ n s as h
+    cases n with
+    | zero => simp [solveSt] at h
+    | succ n =>
+      simp only [Goal.ground, Bool.and_self] at hg
+      unfold solveSt at h
+      simp only [subst_ground s.σ a hg] at h
+      rcases unifyF_refl_ground n a hg with hu | hu
+      · simp [hu] at h
+      · simp [hu] at h; subst h; simp
+  | @conj a b _ _ iha ihb =>
+    intro hg hp n s as h
+    simp only [Goal.ground, Bool.and_eq_true] at hg
+    simp only [Goal.positive, Bool.and_eq_true] at hp
+    cases n with
+    | zero => simp [solveSt] at h
+    | succ n =>
+      unfold solveSt at h
+      simp only at h
+      cases hx : solveSt P n a s with
+      | none => simp [hx] at h
+      | some xs =>
+        simp only [hx] at h
+        have hne := iha hg.1 hp.1 n s xs hx
+        obtain ⟨s1, hs1⟩ := List.exists_mem_of_ne_nil xs hne
+        obtain ⟨ys, hy⟩ := bindAll_some_of_mem _ xs as h s1 hs1
+        exact bindAll_ne_nil _ xs as h s1 hs1 ys hy (ihb hg.2 hp.2 n s1 ys hy)
+  | @disjL a b _ iha =>
+    intro hg hp n s as h
+    simp only [Goal.ground, Bool.and_eq_true] at hg
+    simp only [Goal.positive, Bool.and_eq_true] at hp
+    cases n with
+    | zero => simp [solveSt] at h
+    | succ n =>
+      unfold solveSt at h
+      simp only at h
+      cases hx : solveSt P n a s with
+      | none => simp [hx] at h
+      | some xs =>
+        simp only [hx] at h
+        cases hy : solveSt P n b s with
+        | none => simp [hy] at h
+        | some ys =>
+          simp only [hy, Option.some.injEq] at h; subst h
+          have := iha hg.1 hp.1 n s xs hx
+          intro e; exact this (List.append_eq_nil_iff.1 e).1
+  | @disjR a b _ ihb =>
+    intro hg hp n s as h
+    simp only [Goal.ground, Bool.and_eq_true] at hg
+    simp only [Goal.positive, Bool.and_eq_true] at hp
+    cases n with
+    | zero => simp [solveSt] at h
+    | succ n =>
+      unfold solveSt at h
+      simp only at h
+      cases hx : solveSt P n a s with
+      | none => simp [hx] at h
+      | some xs =>
+        simp only [hx] at h
+        cases hy : solveSt P n b s with
+        | none => simp [hy] at h
+        | some ys =>
+          simp only [hy, Option.some.injEq] at h; subst h
+          have := ihb hg.2 hp.2 n s ys hy
+          intro e; exact this (List.append_eq_nil_iff.1 e).2
+  | call c k ρ hc _ ih =>
+    intro _ _ n s as h
+    obtain ⟨hh, hb, hbp⟩ := hP c hc
+    have ehead : (c.head.rename k).subst ρ = c.head := by
+      rw [rename_ground k _ hh, subst_ground ρ _ hh]
+    have ebody : (c.body.rename k).subst ρ = c.body := by
+      rw [G.rename_ground k _ hb, G.subst_ground ρ _ hb]
+    rw [ehead] at h
+    rw [ebody] at ih
+    cases n with
+    | zero => simp [solveSt] at h
+    | succ n =>
+      unfold solveSt at h
+      simp only at h
+      obtain ⟨ys, hy⟩ := bindAll_some_of_mem _ P as h c hc
+      refine bindAll_ne_nil _ P as h c hc ys hy ?_
+      simp only [rename_ground s.next _ hh, subst_ground s.σ _ hh, G.rename_ground s.next _ hb] at hy
+      rcases unifyF_refl_ground n c.head hh with hu | hu
+      · simp [hu] at hy
+      · simp only [hu] at hy
+        exact ih hb hbp n _ ys hy
+  | neg g n k _ _ => intro _ hp; simp [Goal.positive] at hp
+  | findall t g n k as δ _ => intro _ hp; simp [Goal.subst, Goal.positive] at hp
+
 end ProbLogProofs.SLDLemmas
